@@ -188,10 +188,14 @@ static void ev_cb(tp_event_p ev, tp_udata_p u) {
 		break;
 	}
 	case RK_TIMER:
+		/* end-of-stream / error flags and an error code belong to the descriptor that has the condition, not to
+		 * whatever event the thread serves next */
+		if ((ev->flags & (TP_F_EOF | TP_F_ERROR)) || ev->fflags != 0) { sim_violation("ev-spurious-flags", "slot %d: timer callback carries flags %x / filter flags %x (a timer has no end of stream and no socket error)", r->slot, ev->flags, ev->fflags); return; }
 		if (ev->data < 1 && !r->fuzzy) { sim_violation("ev-timer-count", "slot %d: timer callback with expiration count 0", r->slot); return; }
 		if (ev->data > 1) sim_probe("ev.timer_coalesced");
 		break;
 	case RK_PROC:
+		if ((ev->flags & (TP_F_EOF | TP_F_ERROR)) || (ev->fflags & ~(uint32_t)TP_FF_P_EXIT)) { sim_violation("ev-spurious-flags", "slot %d: process callback carries flags %x / filter flags %x", r->slot, ev->flags, ev->fflags); return; }
 		if (!(ev->fflags & TP_FF_P_EXIT)) { sim_violation("ev-proc-flags", "slot %d: process event without TP_FF_P_EXIT", r->slot); return; }
 		if ((int)ev->data != r->status) { sim_violation("ev-proc-status", "slot %d: process exit status %d reported, %d expected", r->slot, (int)ev->data, r->status); return; }
 		if (sim_now() < r->exit_at) { sim_violation("ev-spurious", "slot %d: process event before the child exited", r->slot); return; }
